@@ -158,6 +158,60 @@ def emit() -> str:
     if appends != ["self.routes.append(route)"]:
         raise ValueError(f"add_route does not simply append: {appends}")
 
+    # --- acceptance tests
+    nic = find_method(class_def(parse("simulator/network/hardware/nodes/host/host_node.py"), "NIC"), "receive_frame")
+    acc = None
+    for node in ast.walk(nic):
+        if isinstance(node, ast.If) and ast.unparse(node.test) == "frame.ethernet.dst_mac_addr == 'ff:ff:ff:ff:ff:ff'":
+            acc = node
+    if acc is None or len(acc.body) != 1 or len(acc.orelse) != 1:
+        raise ValueError("NIC.receive_frame: broadcast/unicast acceptance test not found")
+    b, u = acc.body[0], acc.orelse[0]
+    if not (isinstance(b, ast.If) and [ast.unparse(x) for x in b.body] == ["accept_frame = True"] and not b.orelse
+            and isinstance(u, ast.If) and [ast.unparse(x) for x in u.body] == ["accept_frame = True"] and not u.orelse):
+        raise ValueError("NIC.receive_frame: unexpected acceptance branches")
+    bcast_ok = ast.unparse(b.test) == "frame.ip.dst_ip_address in {self.ip_address, self.ip_network.broadcast_address}"
+    ut = ast.unparse(u.test)
+    if ut == "frame.ethernet.dst_mac_addr == self.mac_address":
+        ucast_ip = False
+    elif ut == ("frame.ethernet.dst_mac_addr == self.mac_address and "
+                "self._connected_node.ip_is_network_interface(frame.ip.dst_ip_address)"):
+        ucast_ip = True
+    else:
+        raise ValueError(f"NIC.receive_frame: unrecognised unicast test {ut}")
+    if not bcast_ok:
+        raise ValueError(f"NIC.receive_frame: unrecognised broadcast test {ast.unparse(b.test)}")
+    ri = find_method(class_def(tree, "RouterInterface"), "receive_frame")
+    ri_tests = [ast.unparse(n.test) for n in ast.walk(ri) if isinstance(n, ast.If)]
+    if "frame.ethernet.dst_mac_addr == self.mac_address or frame.ethernet.dst_mac_addr == 'ff:ff:ff:ff:ff:ff'" not in ri_tests:
+        raise ValueError("RouterInterface.receive_frame: acceptance test not recognised")
+    # --- Router.receive_frame: order of guards and calls
+    rr = find_method(router, "receive_frame")
+    order = []
+    for node in ast.walk(rr):
+        pass
+    src_lines = []
+    for st in rr.body:
+        txt = ast.unparse(st)
+        if "operating_state != NodeOperatingState.ON" in txt:
+            order.append("on")
+        elif "self.subject_to_acl" in txt:
+            order.append("acl")
+        elif txt.startswith("if not permitted"):
+            order.append("deny-return")
+        elif "add_arp_cache_entry" in txt:
+            order.append("learn")
+        elif "check_send_frame_to_session_manager" in txt:
+            if not (isinstance(st, ast.If) and ast.unparse(st.body[0]) == "self.session_manager.receive_frame(frame, from_network_interface)"
+                    and ast.unparse(st.orelse[0]) == "self.process_frame(frame, from_network_interface)"):
+                raise ValueError("Router.receive_frame: unexpected hand-over")
+            order.append("software-if-own-else-process")
+    cs = find_method(router, "check_send_frame_to_session_manager")
+    cs_ifs = [ast.unparse(n.test) for n in ast.walk(cs) if isinstance(n, ast.If)]
+    own_test = "self.ip_is_router_interface(dst_ip_address) and (frame.icmp or dst_port in self.software_manager.get_open_ports())"
+    if own_test not in cs_ifs:
+        raise ValueError("check_send_frame_to_session_manager: test not recognised")
+
     def lst(xs):
         return "[" + ", ".join(f'("{n}", {k})' for n, k in xs) + "]"
     return f"""namespace Primaite.Gen.Forward
@@ -171,6 +225,11 @@ def rxDropBelow : List (String × Int) := {lst(rx)}
 def hopDropBelow : List (String × Int) := {lst(hops)}
 /-- Router.process_frame starts with `if frame.is_broadcast: return` -/
 def processDropsBroadcast : Bool := {"true" if guard else "false"}
+/-- NIC.receive_frame: a broadcast needs the NIC's own or its subnet's broadcast IP address; a unicast frame needs the NIC's
+MAC address and (flag) an IP address of the node -/
+def nicUnicastNeedsNodeIp : Bool := {"true" if ucast_ip else "false"}
+/-- Router.receive_frame: order of guards and calls; software only for an own address (and ICMP or an open port) -/
+def routerReceiveOrder : List String := [{", ".join('"%s"' % o for o in order)}]
 /-- find_best_route: `longest_prefix = -1`, `lowest_metric = float('inf')` (`none`), `best_route = None` -/
 def initLongest : Int := -1
 def ltInf (m : Int) : Option Int → Bool
